@@ -468,6 +468,10 @@ func countPos(n anode) int {
 
 func init() {
 	register(&Check{ID: "C12", Engine: "B", Run: func(c *Ctx) {
+		if msg := hollowFirst(); msg != "" {
+			// alias types first met in hollow form: the order in which values of a type arrive must not matter
+			c.Violation("hollow-value-seen-first", "after nil pointers / zero values of an alias type had been the first values of that type the library saw: "+msg, nil, 0)
+		}
 		// Start from a non-initial state of the package: zero-valued and nil-pointer instances of
 		// every alias type are shown to the converters, to Push and to SetExpression before any
 		// tree is built, so that anything the library remembers per type is exercised.
